@@ -24,11 +24,24 @@ theorem mouse_constants :
 /-- The first guard of `parseMouseEvent` is a disjunction (F09 repaired). -/
 theorem mouse_guard_is_or : Gen.Caps.mouseGuardIsOr = true := by decide
 
-/-- The four capacity-1 reply sends are non-blocking and the clipboard hand-off has a time-out
-(F10, F11 repaired); only the unbuffered `chCursorPos` send is bare. -/
+/-- The five buffered reply sends are non-blocking and the clipboard hand-off has a time-out
+(F10, F11, F12 repaired). -/
 theorem send_kinds : Kinds.ofGen =
-    { cursorPos := .blocking, sizeDone := .nonblocking, color := .nonblocking, fg := .nonblocking,
+    { cursorPos := .nonblocking, sizeDone := .nonblocking, color := .nonblocking, fg := .nonblocking,
       bg := .nonblocking, clipboard := .timeout } := by decide
+
+/-- The requester side of the cursor-position hand-off as the LTS models it (F12 repaired):
+`chCursorPos` has capacity 1, and `CursorPosition()` drops a stale answer, raises the request flag,
+writes the query, arms a 50 ms timer and waits for the timer (clearing the flag) or the answer. -/
+theorem cursor_position_shape :
+    cursorCapGen = 1 ∧ cursorDrainGen = true ∧
+    Gen.Caps.cp_stmts = [
+      "select { case <-vx.chCursorPos: default: }",
+      "atomicStore(&vx.reqCursorPos, true)",
+      "_, _ = io.WriteString(vx.console, dsrcpr)",
+      "timeout := time.NewTimer(50 * time.Millisecond)",
+      "select { case <-timeout.C: log.Warn(\"CursorPosition timed out\") atomicStore(&vx.reqCursorPos, false) return -1, -1 case pos := <-vx.chCursorPos: return pos[0] - 1, pos[1] - 1 }"] := by
+  decide +kernel
 
 theorem send_kinds_safe : Kinds.safe Kinds.ofGen := by
   rw [send_kinds]; simp [Kinds.safe]
@@ -92,23 +105,31 @@ example : (match handle (fun _ => none) {} (.csi [] [[8], [], [1]] (ch 't')) wit
 
 /-- Full statement: from every reachable state internal moves alone (the goroutine's own steps,
 the clipboard time-out, the application reading events) bring the input goroutine back to its
-`select`.  False of the current code: F12 (Witness/F12.lean). -/
+`select`.  False of the source before the F12 repair (Witness/F12.lean); true now (`never_wedges`). -/
 def never_wedges_full (p : Params) (s0 : Sys) : Prop :=
   ∀ s, Reachable p s0 s → ∃ ls s', (∀ l ∈ ls, l.internal = true) ∧ run p s ls = some s' ∧ s'.pend = []
 
-/-- Proved part: for every queue capacity ≥ 1, every base64 decoder, with the send kinds of the
-current source, from every state reachable from a state with a legal queue, the input goroutine
-gets back to its `select` by internal moves alone — no further terminal input, no requester, no
-matter which replies were unsolicited, repeated or truncated — provided a pending cursor-position
-hand-off still has its requester (the excluded region is exactly F12). -/
-theorem never_wedges_partial (qcap : Nat) (hq : 0 < qcap) (b64 : List Nat → Option (List Nat)) (s0 s : Sys)
-    (h0 : s0.queue.length ≤ qcap)
-    (hr : Reachable { qcap := qcap, kinds := Kinds.ofGen, b64 := b64 } s0 s)
-    (hc : CursorOK s.pend s.cursorWaiting) :
-    ∃ ls s', (∀ l ∈ ls, l.internal = true) ∧
-      run { qcap := qcap, kinds := Kinds.ofGen, b64 := b64 } s ls = some s' ∧ s'.pend = [] :=
-  settle { qcap := qcap, kinds := Kinds.ofGen, b64 := b64 } hq send_kinds_safe s.pend s rfl
-    (reach_queue_le _ s0 s h0 hr) hc
+/-- For every queue capacity ≥ 1, every base64 decoder, with the send kinds, the `chCursorPos`
+capacity and the `CursorPosition` prologue of the current source, from every state reachable (by
+any labels: terminal input, requesters calling, receiving, timing out at any moment) from a state
+with a legal queue, the input goroutine gets back to its `select` by internal moves alone — no
+further terminal input, no requester, no matter which replies were unsolicited, repeated,
+truncated or late.  Unconditional since the F12 repair. -/
+theorem never_wedges (qcap : Nat) (hq : 0 < qcap) (b64 : List Nat → Option (List Nat)) (s0 : Sys)
+    (h0 : s0.queue.length ≤ qcap) :
+    never_wedges_full { qcap := qcap, kinds := Kinds.ofGen, b64 := b64 } s0 := by
+  intro s hr
+  exact settle { qcap := qcap, kinds := Kinds.ofGen, b64 := b64 } hq send_kinds_safe s.pend s rfl
+    (reach_queue_le _ s0 s h0 hr)
+
+/-- The F12 schedule (request, report consumed, time-out before the hand-off) is a run of the
+LTS with the current source's parameters, and it ends with the goroutine back at its `select`
+after one more step: the answer is parked in the buffered channel and dropped by the next call. -/
+example :
+    (match run { qcap := 1, kinds := Kinds.ofGen, b64 := fun _ => none } {}
+        [.cursorDrain, .cursorCall, .input (.csi [] [[3], [7]] (ch 'R')), .cursorTimeout, .step, .cursorDrain, .cursorCall] with
+     | some s => s.pend == [] && s.cursorCh == [] && s.cursorWaiting
+     | none => false) = true := by decide
 
 /-- Non-vacuity: after two unsolicited size reports with the capability known (the F10 input),
 the state satisfies the hypotheses and the goroutine is mid-sequence. -/
@@ -249,9 +270,9 @@ theorem caps_coverage :
     (Gen.Caps.collect.filter (fun x => x.1 == "appID" || x.1 == "terminalID")).map (fun x => (x.1, x.2.1))
       = [("appID", ["osc176"]), ("terminalID", [])] := by decide +kernel
 
-/-- The reply channels have the capacities the LTS assumes (0,1,1,1,1,0). -/
+/-- The reply channels have the capacities the LTS assumes (1,1,1,1,1,0). -/
 theorem chan_capacities :
     (["chCursorPos", "chSizeDone", "chColor", "chFg", "chBg", "chClipboard"].map fun c => (Gen.Caps.chanCaps.lookup c))
-      = [some "0", some "1", some "1", some "1", some "1", some "0"] := by decide +kernel
+      = [some "1", some "1", some "1", some "1", some "1", some "0"] := by decide +kernel
 
 end VaxisModel.Props.C03
